@@ -26,6 +26,7 @@ class HarnessError(BaseException):
 
 EOF = 'EOF'
 RST = 'RST'
+AGAIN = 'AGAIN'       # one receive call is answered with EAGAIN (a signal interrupted the wait, a spurious wake-up): nothing is lost, the data follows
 
 _current = None           # the active World
 _tls = threading.local()
@@ -292,6 +293,9 @@ class VSocket:
             w.advance(self.timeout)
             w.event('recv-timeout', self.fd)
             raise _socket.timeout('timed out')
+        if r is AGAIN:
+            w.event('recv-again', self.fd)
+            raise BlockingIOError(errno.EAGAIN, 'Resource temporarily unavailable')
         if r is RST:
             w.event('recv-rst', self.fd)
             raise ConnectionResetError(errno.ECONNRESET, 'Connection reset by peer')
